@@ -2722,6 +2722,9 @@ def rule_error_owner(prog):
                     # (`if let Some(old) = reusable(this) { affected(Some(old), ..) }`: the candidate comes out of a test of its own)
                     if pr.get("k") == "If" and any(y is call for y in hir.nodes(pr["then"])) and inspects_error(pr["cond"]):
                         ok_entry = True
+                    # (`match reusable(this) { Some(old) => affected(Some(old), ..), None => .. }`)
+                    if pr.get("k") == "Match" and not any(y is call for y in hir.nodes(pr["scrut"])) and inspects_error(pr["scrut"]):
+                        ok_entry = True
                 entries.append((ob, call, ok_entry))
         refuses = bool(entries) and all(e_[2] for e_ in entries)
         bad_entry = [e_ for e_ in entries if not e_[2]]
@@ -2793,10 +2796,19 @@ def rule_err_frame(prog):
     def _is(call, name):
         return call.get("k") == "Call" and (hir.callee(call) or "").endswith("parser::utility::" + name)
     direct, mentions = {}, {}
+    def _covered_by_local(b, parents):
+        """the node stands in the initialiser of a local (`let ref_and_name = alt((.. expect(..) ..));`) that is only used below info(..)"""
+        for p_ in parents:
+            if p_.get("k") == "Let" and p_.get("init") is not None and p_["pat"].get("k") == "Binding":
+                lid = p_["pat"]["id"]
+                uses = [(y, yp) for y, yp in hir.walk(b["body"]) if y.get("k") == "Path" and (hir.path_local(y) or {}).get("id") == lid]
+                if uses and all(any(_is(q_, "info") for q_ in yp) for _, yp in uses):
+                    return True
+        return False
     for b in pbodies:
         d_, m_ = [], []
         for x, parents in hir.walk(b["body"]):
-            if any(_is(p_, "info") for p_ in parents):
+            if any(_is(p_, "info") for p_ in parents) or ((_is(x, "expect") or x.get("k") == "Path") and _covered_by_local(b, parents)):
                 continue
             if _is(x, "expect"):
                 d_.append(x)
